@@ -379,7 +379,8 @@ func verifH_C04_rules() {
 	case 30: // the path parameter is declared under another name than the template's variable
 		doc.Components.Parameters["Id"].Value.Name = "other"
 	case 31: // a non-extension extra field at further positions; the examples option must not hide it
-		bad := map[string]any{"foo": 1}
+		// a field that is not an extension: "x-" is the prefix, not "x"
+		bad := map[string]any{[]string{"foo", "xlogo"}[verifChoose("field", 2)]: 1}
 		switch verifChoose("where", 8) {
 		case 0:
 			sites.params[verifChoose("site", len(sites.params))].Extensions = bad
